@@ -17,9 +17,17 @@
    A rational matrix is [num |-> integer matrix, den |-> positive integer].              *)
 EXTENDS Rot
 
-RM(num, den)     == [num |-> num, den |-> den]
-RMEq(A, B)       == MScale(B.den, A.num) = MScale(A.den, B.num)
-RMMul(A, B)      == RM(MMul(A.num, B.num), A.den * B.den)
+RM(num, den)     == [num |-> FM(num), den |-> den]
+(* reduced form (gcd of all entries and the denominator divided out): keeps TLC's 32-bit
+   integers small and makes equality of rational matrices plain equality                 *)
+RECURSIVE GcdSeq(_, _, _), GcdRows(_, _, _)
+GcdSeq(s, k, g)  == IF k > Len(s) \/ g = 1 THEN g ELSE GcdSeq(s, k + 1, Gcd(g, s[k]))
+GcdRows(M, i, g) == IF i > Len(M) \/ g = 1 THEN g ELSE GcdRows(M, i + 1, GcdSeq(M[i], 1, g))
+RMRed(A)         == LET g == GcdRows(A.num, 1, A.den) IN
+                    IF g = 1 THEN A ELSE
+                    [num |-> FM([i \in 1..Len(A.num) |-> [j \in 1..Len(A.num[1]) |-> A.num[i][j] \div g]]), den |-> A.den \div g]
+RMEq(A, B)       == RMRed(A) = RMRed(B)
+RMMul(A, B)      == RMRed(RM(MMul(A.num, B.num), A.den * B.den))
 RMIdent(n)       == RM(Ident(n), 1)
 RMIsIdent(A)     == A.num = MScale(A.den, Ident(Len(A.num)))
 
